@@ -151,7 +151,7 @@ CHECKS = {
                  "inside the stated scope is enumerated, each notification processed to bubble quiescence before the next is issued; concurrent cases = the same scripts driven by one "
                  "goroutine per source, repeated. Non-trivial = at least two sources notify and the arrival order is not 'source after source' (the only shape the suite feeds); "
                  "distinct by (row, k, arrival order) hash."),
-        "quick": {"rapid": 60, "timeout": 300, "shards": 6},
+        "quick": {"rapid": 200, "timeout": 300, "shards": 6},
         "thorough": {"rapid": 1000, "timeout": 3000, "shards": 16},
         "assumptions": COMMON_ASSUMPTIONS + ["testing/synctest's notion of durable blocking decides quiescence after each notification"],
         "technique": "bounded-exhaustive enumeration of arrival orders against step models (per-step output, subscription and release state); concurrent runs judged by membership in the set of model outputs over all interleavings",
